@@ -882,13 +882,23 @@ impl<'g, 's> LRTable<'g, 's> {
                                     // For LR parsing non-empty reductions are
                                     // preferred over empty...
                                     if let ParserAlgo::LR = self.settings.parser_algo {
-                                        // ... so remove all empty reductions.
-                                        actions.retain(
-                                            |x| !matches!(x, Action::Reduce(_, len) if *len == 0),
-                                        );
+                                        let has_nonempty = item.prod_len > 0
+                                            || reduces.iter().any(
+                                                |x| matches!(x, Action::Reduce(_, len) if *len > 0),
+                                            );
+                                        if has_nonempty {
+                                            // ... so remove all empty reductions.
+                                            actions.retain(
+                                                |x| !matches!(x, Action::Reduce(_, len) if *len == 0),
+                                            );
 
-                                        if item.prod_len > 0 || actions.is_empty() {
-                                            // If current reduction is non-empty add it.
+                                            if item.prod_len > 0 {
+                                                // If current reduction is non-empty add it.
+                                                actions.push(new_reduce.clone())
+                                            }
+                                        } else {
+                                            // Only empty reductions compete. There is
+                                            // nothing to prefer so the conflict stays.
                                             actions.push(new_reduce.clone())
                                         }
                                     } else {
